@@ -113,6 +113,8 @@ CLAIMS = {
          "late), C07_delay_complete / C07_observe_on_complete (under EVERY executor: a notification whose task is polled when it is due - no "
          "delay, or the timer its first poll created has elapsed - while the subscriber still listens is delivered by that very poll, and a "
          "directly forwarded error by the call that brought it: nothing is lost, whatever the polling order), "
+         "C07_delay_subscription_complete / C07_subscribe_on_complete (once the subscribing task has been polled when due, every notification "
+         "of the input reaches the subscriber in the call that brings it), "
          "C07_delay_error_prefix (a failing source: the error at once and nothing else), plus the single-task theorems "
          "C07_never_early / _at_most_once / _not_after_unsubscribe. The same predicates judge every implementation trace, and full traces are "
          "compared with the timed model: all label sequences <= 4 plus 4k random ones per operator and form on the crate's hook scheduler with a "
